@@ -942,20 +942,24 @@ package listz
 //@ ghostfield syncNode.lst ref
 //@ ghostfield SyncList.n
 //@ ghostfield SyncList.last ref
+// gv: the value a node was published with (value transport: a node that no Pop has consumed yet still holds it)
+//@ ghostfield syncNode.gv
 
 //@ spec pidx(p ref) int = cast(syncNode, p).idx
 //@ spec plst(p ref) int = cast(syncNode, p).lst
 //@ spec slEnds(l ref) bool = l != nil && l.head != nil && l.tail != nil && l.last != nil && plst(l.head) == l && plst(l.tail) == l && plst(l.last) == l && 1 <= pidx(l.head) && pidx(l.head) <= pidx(l.tail) && pidx(l.tail) <= l.n && pidx(l.last) == l.n && pidx(l.tail) >= l.n - 1 && cast(syncNode, l.last).next == nil
 //@ spec slChain(l ref) bool = forall x in refs(syncNode): (x != nil && x.lst == l && x.idx < l.n) ==> (x.next != nil && plst(x.next) == l && pidx(x.next) == x.idx + 1)
 //@ spec slRange(l ref) bool = forall x in refs(syncNode): (x != nil && x.lst == l) ==> (1 <= x.idx && x.idx <= l.n)
+//@ spec slVals(l ref) bool = forall x in refs(syncNode): (x != nil && x.lst == l && x.idx > pidx(l.head)) ==> x.value == x.gv
 //@ spec slInj(l ref) bool = forall a, b in refs(syncNode): (a != nil && b != nil && a.lst == l && b.lst == l && a.idx == b.idx) ==> a == b
 // what the other goroutines may do between two of my steps (reflexive, transitive): published nodes stay published
 // at their position, a next pointer of a published node is set once, head/tail/n only move forward
-//@ spec slRelyNodes(l ref) bool = forall x in refs(syncNode): old(x.lst) == l ==> (x.lst == l && x.idx == old(x.idx) && (old(x.next) != nil ==> x.next == old(x.next)))
+//@ spec slRelyNodes(l ref) bool = forall x in refs(syncNode): old(x.lst) == l ==> (x.lst == l && x.idx == old(x.idx) && x.gv == old(x.gv) && (old(x.next) != nil ==> x.next == old(x.next)) && (x.idx > pidx(l.head) ==> x.value == old(x.value)))
 //@ spec slRelyEnds(l ref) bool = pidx(l.head) >= old(pidx(l.head)) && pidx(l.tail) >= old(pidx(l.tail)) && l.n >= old(l.n)
 
 //@ func SyncList.Len
 //@   sharedinv slEnds(l) && slChain(l) && slRange(l) && slInj(l)
+//@   sharedinv slVals(l)
 //@   rely slRelyNodes(l) && slRelyEnds(l)
 //@   guarantee slRelyNodes(l) && slRelyEnds(l)
 
@@ -967,19 +971,22 @@ package listz
 //@   nomerge
 //@   wraps
 //@   sharedinv slEnds(l) && slChain(l) && slRange(l) && slInj(l)
+//@   sharedinv slVals(l)
 //@   rely slRelyNodes(l) && slRelyEnds(l)
-//@   rely old(plst(node)) != l ==> (plst(node) == old(plst(node)) && pidx(node) == old(pidx(node)) && cast(syncNode, node).next == old(cast(syncNode, node).next))
+//@   rely old(plst(node)) != l ==> (plst(node) == old(plst(node)) && pidx(node) == old(pidx(node)) && cast(syncNode, node).next == old(cast(syncNode, node).next) && cast(syncNode, node).value == old(cast(syncNode, node).value) && cast(syncNode, node).gv == old(cast(syncNode, node).gv))
 //@   rely (old(l.last) == node && old(pidx(l.tail)) == old(l.n) - 1) ==> (l.n == old(l.n) && l.last == node && l.tail == old(l.tail))
 //@   guarantee slRelyNodes(l) && slRelyEnds(l)
 //@   guarantee forall x in refs(syncNode): (x != cast(syncNode, node) && old(x.lst) != l) ==> (x.lst == old(x.lst) && x.idx == old(x.idx) && x.next == old(x.next))
 //@   guarantee (l.n != old(l.n) || l.tail != old(l.tail)) ==> (old(pidx(l.tail)) == old(l.n) || old(l.last) == node)
-//@   ensures plst(node) == l && pidx(node) >= 2 && pidx(l.tail) >= pidx(node)
+//@   ensures plst(node) == l && pidx(node) >= 2 && pidx(l.tail) >= pidx(node) && cast(syncNode, node).gv == value
 //@   loop 1:
-//@     invariant node != nil && plst(node) == 0 && pidx(node) == 0 && cast(syncNode, node).next == nil
+//@     invariant node != nil && plst(node) == 0 && pidx(node) == 0 && cast(syncNode, node).next == nil && cast(syncNode, node).value == value
 //@     invariant slEnds(l) && slChain(l) && slRange(l) && slInj(l)
+//@     invariant slVals(l)
 //@   at after-call5:
 //@     ghost cast(syncNode, node).idx = ite(last_ret, l.n + 1, 0)
 //@     ghost cast(syncNode, node).lst = ite(last_ret, l, 0)
+//@     ghost cast(syncNode, node).gv = ite(last_ret, value, cast(syncNode, node).gv)
 //@     ghost l.last = ite(last_ret, node, l.last)
 //@     ghost l.n = ite(last_ret, l.n + 1, l.n)
 
@@ -991,11 +998,15 @@ package listz
 //@   nomerge
 //@   wraps
 //@   sharedinv slEnds(l) && slChain(l) && slRange(l) && slInj(l)
+//@   sharedinv slVals(l)
 //@   rely slRelyNodes(l) && slRelyEnds(l)
 //@   guarantee slRelyNodes(l) && slRelyEnds(l)
 //@   guarantee forall x in refs(syncNode): old(x.lst) != l ==> (x.lst == old(x.lst) && x.idx == old(x.idx) && x.next == old(x.next))
 //@   guarantee l.n == old(l.n) && l.tail == old(l.tail) && l.last == old(l.last)
 //@   guarantee pidx(l.head) <= old(pidx(l.head)) + 1
+//@   ghost mine = nil
+//@   rely mine != nil ==> cast(syncNode, mine).value == old(cast(syncNode, mine).value)
+//@   ensures result2 ==> (mine != nil && plst(mine) == l && result1 == cast(syncNode, mine).gv)
 //@   at after-call2:
 //@     assert plst(head) == l && plst(tail) == l && pidx(head) <= pidx(l.head) && pidx(l.head) <= pidx(tail)
 //@     assert head == tail ==> pidx(l.head) == pidx(l.tail)
@@ -1003,10 +1014,12 @@ package listz
 //@     assert head != tail ==> (next != nil && plst(next) == l && pidx(next) == pidx(head) + 1)
 //@   at after-call5:
 //@     assert last_ret ==> (pidx(l.head) == pidx(head) + 1 && l.head == next)
+//@     assert last_ret ==> cast(syncNode, next).value == cast(syncNode, next).gv
+//@     ghost mine = ite(last_ret, next, nil)
 
 // NewSync establishes the shared invariant: the dummy node is published node number 1 of the new list
 //@ func NewSync
-//@   ensures fresh(result) && slEnds(result) && slChain(result) && slRange(result) && slInj(result) && result.n == 1
+//@   ensures fresh(result) && slEnds(result) && slChain(result) && slRange(result) && slInj(result) && slVals(result) && result.n == 1
 //@   at end:
 //@     ghost cast(syncNode, result.head).idx = 1
 //@     ghost cast(syncNode, result.head).lst = result
